@@ -125,8 +125,12 @@ def finish(ctx, t0, seed=0, level='other', assumptions=(), explanation='', extra
             os.unlink(os.path.join(viol_dir, f))
     violations = []
     known_hits = []
+    seen_keys = set()
     for r in ctx.rules:
         for f in r.findings:
+            if f.key in seen_keys:
+                continue        # the same construct reported again by a pass over another configuration
+            seen_keys.add(f.key)
             if f.key in known and known[f.key].get('property') == prop:
                 known_hits.append(f)
             else:
